@@ -211,6 +211,15 @@ func VH_C05_Hidden(p []int) {
 		s := And().Push(a)
 		verifAssert(s.IsEqual(x) != nil, "stack-vs-condition")
 		verifAssert(s.IsEqual(Stack{}) != nil, "stack-vs-zero-stack")
+	case 6: // empty stacks differ by kind like any others, wherever they sit
+		mk := func(k int) Stack { return []Stack{And(), Or(), Not(), List(), Basic()}[k] }
+		i, j := nondetChoice(5), nondetChoice(5)
+		verifAssert((mk(i).IsEqual(mk(j)) == nil) == (i == j), "empty-stacks-by-kind")
+		x, y := List().Push("l", And().Push(mk(i))), List().Push("l", And().Push(mk(j)))
+		verifAssert((x.IsEqual(y) == nil) == (i == j), "nested-empty-stacks-by-kind")
+		verifAssert((y.IsEqual(x) == nil) == (i == j), "nested-empty-stacks-by-kind-reverse")
+		cx, cy := Cond("k", Eq, mk(i)), Cond("k", Eq, mk(j))
+		verifAssert((cx.IsEqual(cy) == nil) == (i == j), "empty-expression-stacks-by-kind")
 	case 5: // an element that is a zero Stack / zero alias against a real one
 		real := And().Push(a, "q")
 		for _, z := range []any{Stack{}, vhAliasStack{}, Condition{}} {
